@@ -456,6 +456,9 @@ def rule_selectout(P):
             if last == 'print':
                 ex.events.append(('print', args, kw))
                 return None
+            if rc == SETTINGS_ and last == 'todict' and not args:
+                ex.events.append(('call', name, args, kw))
+                return TODICT          # decided on its own (live dictionary or new mapping), kept as one term here
             return NotImplemented
 
         def on_item(base, i, ex):
@@ -476,7 +479,7 @@ def rule_selectout(P):
             return None
         good = True
         n = 0
-        for p in Engine(P, on_call=on_call, on_item=on_item, oracle=oracle, max_depth=0).paths(f, {'self': SELF, f.params[1]: ST}):
+        for p in Engine(P, on_call=on_call, on_item=on_item, oracle=oracle, max_depth=2).paths(f, {'self': SELF, f.params[1]: ST}):      # helpers of the handler are interpreted in place
             n += 1
             if not good:
                 break
